@@ -22,7 +22,7 @@ ID = 'C12'
 TITLE = 'Index is a persistent insertion-ordered dictionary'
 COQ_PROP = 'C12'
 LEVEL = 'proof'
-TRANSLATE = ['persistent']
+TRANSLATE = ['persistent', 'disk']     # disk: Disk.store / Disk.fetch carry every Index value (text, bytes, pickle; inline and file)
 TRUSTED = [
     'collections.OrderedDict is the oracle of the sequential monitor',
     'the abstract insertion-ordered cache of model/QCache.v stands for Cache get/set/del/pop/add/peekitem/iteration (C03)',
@@ -53,8 +53,36 @@ KNOWN_SIG = 'lookup_overlapping_replace'
 KEYS = [0, 1, 2, 3, 2.5, 1.0, 'a', 'b', 'k', b'x', (1, 2), ('a', 1)]
 KEYS_ALL = KEYS + [None]
 VALUES = [1, 1.0, True, 0, 2, 'a', 'b', b'x', (1, 2), None]
-LONG_VALUES = ['a' * 40, b'y' * 40, tuple(range(12))]
+LONG_VALUES = ['a' * 40, b'y' * 40, tuple(range(12)),
+               # file-backed under disk_min_file_size=8: text with every kind of line ending, bytes that look like them, pickles holding them
+               'dos line\r\nsecond line\r\n', 'mac line\rsecond line\r', 'unix line\nsecond line\n', 'mixed\r\n\r\r\n\n\rend\r',
+               'nel\x85 ls\u2028 ps\u2029 ff\x0c vt\x0b nul\x00 end', '\r' * 9, '\r\n' * 5, '\n\r' * 5, '\U0001F600\r\n\xe9\r' * 3,
+               b'bytes\r\nwith\rline\nendings\x00', ('pickled\r\n', b'\r', 'a\rb'), ('p', ('nested\r\n' * 3, 1.5, None))]
 KINDS = ['plain', 'filebacked', 'fanout', 'django']
+
+# Values at and above the DEFAULT disk_min_file_size of an Index (32 KiB), so that the default kinds (Index(directory),
+# FanoutCache.index, DjangoCache.index) hold file-backed text, bytes and pickles too.  They are written as source expressions:
+# replay files and evidence carry the expression (crepr), not 40 000 characters.
+BIG_SRC = [
+    "'dos line\\r\\n' * 4000",                  # CRLF text, 40 000 chars
+    "'mac line\\r' * 4000",                     # CR-only text
+    "'unix line\\n' * 4000",                    # LF-only text
+    "'mixed\\r\\n\\r\\n\\n\\r' * 3000 + '\\r'",    # mixed endings, CR last
+    "'\\r' + 'x' * 32767",                      # exactly at the threshold, CR first
+    "'x' * 32766 + '\\r\\n'",                   # exactly at the threshold, CRLF last
+    "'x' * 32765 + '\\r\\n'",                   # one below the threshold (inline)
+    "'\\xe9\\r\\n\\u2028\\x85' * 7000",          # non-ASCII text with CRLF and Unicode line separators
+    "b'bytes\\r\\n\\x00\\xff\\r' * 4000",        # bytes above the threshold
+    "b'\\r' * 32768",
+]
+BIG_COMPOSITE = [
+    "('big pickle', 'dos line\\r\\n' * 4000, 7)",
+    "(b'bytes\\r\\n\\x00\\xff\\r' * 4000, ('mac line\\r' * 4000, None), 2.5)",
+    "tuple([(i, 'v\\r\\n') for i in (1, 2, 3)] * 1500)",
+]
+BIG_VALUES = [eval(_s, {'__builtins__': {'tuple': tuple}}) for _s in BIG_SRC + BIG_COMPOSITE]
+BIG_EXPR = dict(zip(BIG_VALUES, BIG_SRC + BIG_COMPOSITE))
+P_BIG = {'plain': 0.10, 'fanout': 0.10, 'django': 0.10, 'filebacked': 0.04}
 HANDLE_EVENTS = ('reopen', 'pickle')
 EQ_OPS = ('eq_ordered', 'ne_ordered', 'eq_unordered', 'ne_unordered')
 MUTATORS = ('setitem', 'delitem', 'pop', 'pop_default', 'popitem', 'setdefault', 'update', 'clear')
@@ -86,11 +114,31 @@ def leq(a, b):
         return False
 
 
+def crepr(x, exact=False):
+    """repr that stays short: the big values of the pool are written as their source expression (still evaluable by ev);
+    other long text/bytes (e.g. an altered value that came back) is abbreviated unless exact=True (replayable arguments)."""
+    if isinstance(x, (str, bytes, tuple)):
+        try:
+            e = BIG_EXPR.get(x)
+        except TypeError:
+            e = None
+        if e is not None:
+            return e
+    if isinstance(x, (str, bytes)) and len(x) > 400 and not exact:
+        return '<%s of %d, %d CR, %d LF, starts %r, ends %r>' % (type(x).__name__, len(x), x.count('\r' if isinstance(x, str) else b'\r'),
+                                                              x.count('\n' if isinstance(x, str) else b'\n'), x[:24], x[-8:])
+    if type(x) is tuple:
+        return '(' + ', '.join(crepr(y, exact) for y in x) + (',)' if len(x) == 1 else ')')
+    if type(x) is list:
+        return '[' + ', '.join(crepr(y, exact) for y in x) + ']'
+    return repr(x)
+
+
 def rl(xs):
-    return [repr(x) for x in xs]
+    return [crepr(x, True) for x in xs]
 
 
-SAFE_ENV = {'__builtins__': {}}
+SAFE_ENV = {'__builtins__': {'tuple': tuple}}
 
 
 def ev(s):
@@ -291,15 +339,15 @@ def compare(op, ri, rr, items_i, items_r):
     persist = op in HANDLE_EVENTS
     if ri[0] != rr[0] or (ri[0] == 'raise' and ri[1] != rr[1]) or (ri[0] != 'raise' and not leq(list(ri[1:]), list(rr[1:]))):
         return {'sig': ('index_persist_' if persist else 'index_result_') + tag, 'what': 'result',
-                'expected': repr(rr), 'observed': repr(ri)}
+                'expected': crepr(rr), 'observed': crepr(ri)}
     if ri[0] != 'raise' and not teq(list(ri[1:]), list(rr[1:])):
-        return {'sig': 'index_type_' + tag, 'what': 'type of result', 'expected': repr(rr), 'observed': repr(ri)}
+        return {'sig': 'index_type_' + tag, 'what': 'type of result', 'expected': crepr(rr), 'observed': crepr(ri)}
     if isinstance(items_i, tuple) or not leq(items_i, items_r):
         return {'sig': ('index_persist_' if persist else 'index_contents_') + tag, 'what': 'contents',
-                'expected': repr(items_r), 'observed': repr(items_i)}
+                'expected': crepr(items_r), 'observed': crepr(items_i)}
     if not teq(items_i, items_r):
         return {'sig': ('index_persist_' if persist else 'index_type_') + tag, 'what': 'type in contents',
-                'expected': repr(items_r), 'observed': repr(items_i)}
+                'expected': crepr(items_r), 'observed': crepr(items_i)}
     return None
 
 
@@ -362,9 +410,36 @@ def weighted(rng, table):
 
 
 def pick_value(rng, kind):
+    if rng.random() < P_BIG.get(kind, 0.0):
+        return rng.choice(BIG_VALUES)
     if kind == 'filebacked' and rng.random() < 0.5:
         return rng.choice(LONG_VALUES)
     return rng.choice(VALUES)
+
+
+def newline_variant(rng, v):
+    """A value that differs from v only in its line endings (None if v has no text with CR / LF inside)."""
+    if isinstance(v, (str, bytes)):
+        b = 'b' if isinstance(v, bytes) else ''
+        edits = [".replace(%s'\\r\\n', %s'\\n').replace(%s'\\r', %s'\\n')" % (b, b, b, b), ".replace(%s'\\r\\n', %s'\\n')" % (b, b),
+                 ".replace(%s'\\n', %s'\\r\\n')" % (b, b), ".replace(%s'\\r', %s'')" % (b, b)]
+        alts = []
+        for e in edits:
+            w = eval('v' + e, {'__builtins__': {}, 'v': v})
+            if w != v:
+                alts.append((w, e))
+        if not alts:
+            return None
+        w, e = rng.choice(alts)
+        if v in BIG_EXPR and w not in BIG_EXPR:
+            BIG_EXPR[w] = '(%s)%s' % (BIG_EXPR[v], e)
+        return w
+    if isinstance(v, tuple):
+        for i, x in enumerate(v):
+            w = newline_variant(rng, x)
+            if w is not None:
+                return v[:i] + (w,) + v[i + 1:]
+    return None
 
 
 def any_key(rng):
@@ -395,9 +470,17 @@ def pick_key(rng, ref, p_present):
 def gen_pairs(rng, cur, kind):
     """Argument of an ==/!= operation and the name of the variant actually produced."""
     variant = rng.choice(['same', 'same', 'reordered', 'reordered', 'reordered', 'changed', 'changed', 'key_replaced',
-                          'dropped', 'added', 'empty', 'retyped'])
+                          'dropped', 'added', 'empty', 'retyped', 'newlines'])
     pairs = list(cur)
     ref = OrderedDict(cur)
+    if variant == 'newlines':
+        # the other mapping holds the same text with different line endings: not equal
+        cands = [(i, w) for i, w in ((i, newline_variant(rng, v)) for i, (k, v) in enumerate(pairs)) if w is not None]
+        if cands:
+            i, w = rng.choice(cands)
+            pairs[i] = (pairs[i][0], w)
+        else:
+            variant = 'changed'
     if variant == 'reordered':
         if len(pairs) < 2:
             variant = 'same'
@@ -525,14 +608,14 @@ def shrink(kind, init, ops, mkdir, sig, budget=160):
 
 def history_case(hid, kind, stream, init, ops, div):
     return {'check': 'index_history', 'history': hid, 'kind': kind, 'stream': stream,
-            'init': [[repr(k), repr(v)] for k, v in init],
+            'init': [[crepr(k, True), crepr(v, True)] for k, v in init],
             'ops': [[op, rl(args)] for op, args in ops],
             'what': div['what'], 'expected': div['expected'], 'observed': div['observed']}
 
 
 def short_history(h, nmax=14):
-    return {'kind': h['kind'], 'stream': h['stream'], 'init': repr(h['init']),
-            'events': ['%s(%s) -> %r' % (e['op'], ', '.join(rl(e['args'])), e['res']) for e in h['events'][:nmax]],
+    return {'kind': h['kind'], 'stream': h['stream'], 'init': crepr(h['init']),
+            'events': ['%s(%s) -> %s' % (e['op'], ', '.join(rl(e['args'])), crepr(e['res'])) for e in h['events'][:nmax]],
             'length': len(h['events'])}
 
 
@@ -564,7 +647,7 @@ def sequential(ctx, res, nhist, stats):
             hist[e['op']] = hist.get(e['op'], 0) + 1
             if e['res'][0] == 'raise':
                 nerr += 1
-            res.count(['seq', kind, e['op'], repr(e['args']), repr(before)],
+            res.count(['seq', kind, e['op'], crepr(e['args']), crepr(before)],
                       nontrivial=bool(before) or bool(e['items']) or e['res'][0] == 'raise')
             before = e['items']
         for key, names in (('histories_with_reopen', ('reopen',)), ('histories_with_pickle', ('pickle',))):
@@ -599,6 +682,51 @@ def sequential(ctx, res, nhist, stats):
     stats['ops'] = stats.get('ops', 0) + nops
     stats['errors'] = stats.get('errors', 0) + nerr
     return histories
+
+
+def directed_values(ctx, res, stats, histories, thorough):
+    """Every value of the big / line-ending pools through every way an Index hands a value out, on every kind: lookup, get, views,
+    peekitem, equality with the same mapping and with one differing only in line endings, reopen, unpickle, pop, popitem,
+    setdefault.  Same oracle (OrderedDict after every call) and same replay format as the generated histories."""
+    import random
+
+    def mkdir():
+        return ctx.scratch('c12d')
+
+    crs = [v for v in LONG_VALUES if newline_variant(random.Random(0), v) is not None]
+    n = 0
+    for ki, kind in enumerate(KINDS):
+        pool = list(BIG_VALUES) + (crs if kind == 'filebacked' or thorough else crs[(ctx.seed + ki) % 3::3])
+        if not thorough and kind != 'plain':
+            pool = [v for i, v in enumerate(pool) if (i + ki + ctx.seed) % 2 == 0 or v in crs]
+        for vi, v in enumerate(pool):
+            rng = random.Random(vi * 31 + ki)
+            w = newline_variant(rng, v)
+            other = BIG_VALUES[(vi + 3) % len(BIG_VALUES)] if vi % 2 else 'small'
+            init = [('first', other), ('k', v), (7, b'x')]
+            same = list(init)
+            ops = [('getitem', ['k']), ('get', ['k', None]), ('values', []), ('items', []), ('peekitem', [False]), ('contains', ['k']),
+                   ('eq_ordered', [same]), ('eq_unordered', [list(reversed(same))]), ('ne_ordered', [same])]
+            if w is not None:
+                diff = [('first', other), ('k', w), (7, b'x')]
+                ops += [('eq_ordered', [diff]), ('eq_unordered', [diff]), ('ne_unordered', [diff])]
+            ops += [('reopen', []), ('getitem', ['k']), ('eq_ordered', [same]), ('pickle', []), ('get', ['k', 0]), ('values', []),
+                    ('pop', ['k']), ('setdefault', ['k', v]), ('setdefault', ['k', 'ignored']), ('popitem', [True]), ('setitem', [7, v]),
+                    ('popitem', [True]), ('update', [[('u', v), ('first', v)]]), ('reopen', []), ('popitem', [False]), ('pop_default', ['u', 1])]
+            events, div, at = run_history(kind, init, ops, mkdir, stats=stats)
+            n += 1
+            histories.append({'id': 'directed-%s-%d' % (kind, vi), 'kind': kind, 'stream': 'directed', 'init': list(init), 'events': events})
+            before = list(OrderedDict(init).items())
+            for e in events:
+                res.count(['directed', kind, e['op'], crepr(e['args']), crepr(before)], nontrivial=True)
+                before = e['items']
+            if div is not None:
+                upto = ops[:at + 1] if at is not None and at >= 0 else []
+                desc = 'Index diverges from OrderedDict (%s) at %s: expected %s observed %s' % (
+                    div['what'], 'init' if not upto else '%s(%s)' % (upto[-1][0], ', '.join(rl(upto[-1][1]))[:200]),
+                    div['expected'][:200], div['observed'][:200])
+                res.violations.append(fw.Violation(div['sig'], desc, history_case('directed-%s-%d' % (kind, vi), kind, 'directed', init, upto, div)))
+    stats['directed_value_histories'] = n
 
 
 # ---------------------------------------------------------------------------
@@ -716,9 +844,9 @@ def coq_ix_history(h, upto=None):
 
 def model_case(h, upto=None):
     evs = h['events'] if upto is None else h['events'][:upto]
-    return {'check': 'index_model', 'kind': h['kind'], 'init': [[repr(k), repr(v)] for k, v in h['init']],
-            'ops': [[e['op'], [repr(x) for x in e['args']]] for e in evs],
-            'impl_results': [repr(e['res']) for e in evs], 'impl_items': [repr(e['items']) for e in evs][-2:]}
+    return {'check': 'index_model', 'kind': h['kind'], 'init': [[crepr(k, True), crepr(v, True)] for k, v in h['init']],
+            'ops': [[e['op'], rl(e['args'])] for e in evs],
+            'impl_results': [crepr(e['res']) for e in evs], 'impl_items': [crepr(e['items']) for e in evs][-2:]}
 
 
 COQ_IMPORTS = ['DCPrelude', 'PersistentBase', 'Gen_Persistent', 'QCache', 'Index', 'IndexConc']
@@ -764,8 +892,8 @@ def correspondence(ctx, res, histories, limit):
         if bad2:
             upto = min(bad2) + 1
             e = h['events'][upto - 1]
-            where = ': first disagreement at call %d, %s(%s) -> implementation %r, items %r' % (
-                upto, e['op'], ', '.join(repr(x) for x in e['args']), e['res'], e['items'])
+            where = ': first disagreement at call %d, %s(%s) -> implementation %s, items %s' % (
+                upto, e['op'], ', '.join(crepr(x) for x in e['args']), crepr(e['res']), crepr(e['items']))
         res.disagreements.append(fw.Violation(
             'index_model', 'the Coq model of Index (or the OrderedDict specification) disagrees with diskcache.Index' + where,
             model_case(h, upto), 'correspondence'))
@@ -1269,6 +1397,7 @@ def finish_extra(res, stats):
         'histories_by_kind': stats.get('histories_by_kind', {}),
         'histories_by_stream': stats.get('histories_by_stream', {}),
         'filebacked_values_stored': stats.get('filebacked_values_stored', 0),
+        'directed_value_histories': stats.get('directed_value_histories', 0),
         'eq_cases': stats.get('eq_cases', {}),
         'schedules': stats.get('schedules', 0),
         'schedules_by_scenario': stats.get('schedules_by_scenario', {}),
@@ -1281,7 +1410,12 @@ def finish_extra(res, stats):
 RULE = ('sequential: generated histories of 10-40 mapping operations (two streams: valid = mostly present keys, malformed = absent '
         'keys / empty index) on Index kinds plain, file-backed (disk_min_file_size=8), FanoutCache.index, DjangoCache.index, with '
         'reopen and unpickle events; after every call result (value and type), exception class and list(items()) are compared with '
-        'collections.OrderedDict.  distinct = distinct (kind, op, arguments, contents before); non-trivial = contents before or '
+        'collections.OrderedDict.  Values: small natives and tuples; under disk_min_file_size=8 text with CRLF / CR / LF / NEL / LS / PS, '
+        'bytes and pickles holding them; on every kind (P about 0.1 per stored value) text, bytes and pickled tuples at and above the default '
+        '32 KiB file threshold with CRLF, CR, LF and mixed endings, threshold +-1 lengths; == / != also against a mapping that differs only in '
+        'line endings.  Directed histories: every value of those pools x every kind through [], get, values, items, peekitem, in, == / != '
+        '(same, reversed, line-ending variant), reopen, unpickle, pop, setdefault, popitem from both ends, update.  '
+        'distinct = distinct (kind, op, arguments, contents before); non-trivial = contents before or '
         'after non-empty, or the call raises.  concurrent: 2-3 clients with their own Cache on one directory under random '
         'deterministic schedules of 50-300 steps (S1 continuous presence, S1 inline only, S2 popitem accounting); non-trivial = '
         'at least two context switches; plus the replayed witness schedule of the known finding.')
@@ -1293,6 +1427,7 @@ def run(ctx):
     stats = {}
     nhist, nsched = (250, 60) if ctx.quick else (2500, 600)
     histories = sequential(ctx, res, nhist, stats)
+    directed_values(ctx, res, stats, histories, not ctx.quick)
     correspondence(ctx, res, histories, 7000 if ctx.quick else 100000)
     concurrent(ctx, res, nsched, stats)
     machine_correspondence(ctx, res, 40 if ctx.quick else 400)
@@ -1309,6 +1444,7 @@ def search(ctx, broken):
     stats = {}
     nhist, nsched = (700, 150) if ctx.quick else (3000, 600)
     sequential(ctx, res, nhist, stats)
+    directed_values(ctx, res, stats, [], True)
     concurrent(ctx, res, nsched, stats)
     res.witnessed[KNOWN_SIG] = witness_lookup_overlapping_replace()
     return res
@@ -1345,10 +1481,10 @@ def replay(payload):
         init = [(ev(k), ev(v)) for k, v in case['init']]
         ops = [(op, [ev(a) for a in args]) for op, args in case['ops']]
         print('kind:', kind)
-        print('init:', init)
+        print('init:', crepr(init))
         events, div, at = run_history(kind, init, ops, lambda: tempfile.mkdtemp(prefix='c12r-'))
         for i, e in enumerate(events):
-            print('  %2d %s(%s) -> %r   items=%r' % (i, e['op'], ', '.join(rl(e['args'])), e['res'], e['items']))
+            print('  %2d %s(%s) -> %s   items=%s' % (i, e['op'], ', '.join(crepr(x) for x in e['args']), crepr(e['res']), crepr(e['items'])))
         if div is None:
             print('Index and OrderedDict agree on every call of this history')
             return True
